@@ -1,7 +1,8 @@
-// Package ref holds independent reference implementations. This file: a sequential model of
-// the restake accounting rules (delegations at share/token rate 1, restaked coins, locks per
-// (vault, account), vault activity flags, allowed denoms). It imports nothing from /repo.
-package ref
+// Sequential reference model of the restake accounting rules (delegations at share/token rate 1,
+// restaked coins, locks per (vault, account), vault activity flags, allowed denoms). It imports
+// nothing from /repo (kept in the check's own package so that it cannot collide with other
+// checks' helpers in harness/ref).
+package main
 
 import (
 	"fmt"
@@ -67,12 +68,14 @@ type RestakeModel struct {
 	Vaults    map[string]bool // key -> active; absent = never created
 	Users     []*RUser
 	Module    map[string]*big.Int // coins the module account must hold
+	// Unbonded[v]: validator v is UNBONDED for the whole history; a redelegation out of it
+	// completes at once and leaves no redelegation record (staking rule, not a restake rule).
+	Unbonded []bool
 }
 
-var two64 = new(big.Int).Lsh(big.NewInt(1), 64)
 
 func NewRestakeModel(nUsers, nVals int, bondDenom string, allowed []string, balances map[string]*big.Int) *RestakeModel {
-	m := &RestakeModel{BondDenom: bondDenom, Allowed: map[string]bool{}, Vaults: map[string]bool{}, Module: map[string]*big.Int{}}
+	m := &RestakeModel{BondDenom: bondDenom, Allowed: map[string]bool{}, Vaults: map[string]bool{}, Module: map[string]*big.Int{}, Unbonded: make([]bool, nVals)}
 	for _, d := range allowed {
 		m.Allowed[d] = true
 	}
@@ -89,7 +92,7 @@ func NewRestakeModel(nUsers, nVals int, bondDenom string, allowed []string, bala
 	return m
 }
 
-func get(m map[string]*big.Int, k string) *big.Int {
+func getAmt(m map[string]*big.Int, k string) *big.Int {
 	if v, ok := m[k]; ok {
 		return v
 	}
@@ -164,7 +167,7 @@ func (m *RestakeModel) Predict(op ROp) RPrediction {
 			}
 		}
 		for _, d := range sortedKeys(op.Coins) {
-			if get(u.Bal, d).Cmp(op.Coins[d]) < 0 {
+			if getAmt(u.Bal, d).Cmp(op.Coins[d]) < 0 {
 				return fail("insufficient-balance", false)
 			}
 		}
@@ -173,7 +176,7 @@ func (m *RestakeModel) Predict(op ROp) RPrediction {
 		u := m.Users[op.User]
 		reduce := new(big.Int)
 		for _, d := range sortedKeys(op.Coins) {
-			if get(u.Stake, d).Cmp(op.Coins[d]) < 0 {
+			if getAmt(u.Stake, d).Cmp(op.Coins[d]) < 0 {
 				return fail("stake-not-enough", false)
 			}
 			if m.Allowed[d] {
@@ -187,7 +190,7 @@ func (m *RestakeModel) Predict(op ROp) RPrediction {
 		return ok(reduce.Sign() > 0)
 	case "delegate":
 		u := m.Users[op.User]
-		if get(u.Bal, m.BondDenom).Cmp(op.Amount) < 0 {
+		if getAmt(u.Bal, m.BondDenom).Cmp(op.Amount) < 0 {
 			return fail("insufficient-balance", false)
 		}
 		after := new(big.Int).Add(m.Power(op.User), op.Amount)
@@ -269,20 +272,20 @@ func (m *RestakeModel) Apply(op ROp) {
 	case "stake":
 		u := m.Users[op.User]
 		for d, a := range op.Coins {
-			u.Bal[d] = new(big.Int).Sub(get(u.Bal, d), a)
-			u.Stake[d] = new(big.Int).Add(get(u.Stake, d), a)
-			m.Module[d] = new(big.Int).Add(get(m.Module, d), a)
+			u.Bal[d] = new(big.Int).Sub(getAmt(u.Bal, d), a)
+			u.Stake[d] = new(big.Int).Add(getAmt(u.Stake, d), a)
+			m.Module[d] = new(big.Int).Add(getAmt(m.Module, d), a)
 		}
 	case "unstake":
 		u := m.Users[op.User]
 		for d, a := range op.Coins {
-			u.Bal[d] = new(big.Int).Add(get(u.Bal, d), a)
-			u.Stake[d] = new(big.Int).Sub(get(u.Stake, d), a)
-			m.Module[d] = new(big.Int).Sub(get(m.Module, d), a)
+			u.Bal[d] = new(big.Int).Add(getAmt(u.Bal, d), a)
+			u.Stake[d] = new(big.Int).Sub(getAmt(u.Stake, d), a)
+			m.Module[d] = new(big.Int).Sub(getAmt(m.Module, d), a)
 		}
 	case "delegate":
 		u := m.Users[op.User]
-		u.Bal[m.BondDenom] = new(big.Int).Sub(get(u.Bal, m.BondDenom), op.Amount)
+		u.Bal[m.BondDenom] = new(big.Int).Sub(getAmt(u.Bal, m.BondDenom), op.Amount)
 		u.Deleg[op.Val] = new(big.Int).Add(u.Deleg[op.Val], op.Amount)
 	case "undelegate":
 		u := m.Users[op.User]
@@ -291,7 +294,9 @@ func (m *RestakeModel) Apply(op ROp) {
 		u := m.Users[op.User]
 		u.Deleg[op.Val] = new(big.Int).Sub(u.Deleg[op.Val], op.Amount)
 		u.Deleg[op.Dst] = new(big.Int).Add(u.Deleg[op.Dst], op.Amount)
-		u.Recv[op.Dst] = true
+		if !m.Unbonded[op.Val] {
+			u.Recv[op.Dst] = true
+		}
 	case "setlock":
 		if _, exists := m.Vaults[op.Vault]; !exists {
 			m.Vaults[op.Vault] = true
